@@ -146,7 +146,7 @@ pub fn initialize_params(ws: Option<&str>, shape: u8) -> Value {
                         // a client that cannot show one of the earlier entries of the server's legend
                         11 => json!(["variable", "keyword", "comment", "string", "operator"]),
                         _ => json!(["keyword", "variable"]),
-                    }, "tokenModifiers": [], "formats": ["relative"]}
+                    }, "tokenModifiers": [], "formats": ["relative"], "multilineTokenSupport": shape != 11, "overlappingTokenSupport": false}
                 },
                 "general": {"positionEncodings": ["utf-16"]}
             },
